@@ -84,6 +84,8 @@ func (r *RelayAddressGeneratorPortRange) AllocatePacketConn(
 
 		relayAddr, ok := conn.LocalAddr().(*net.UDPAddr)
 		if !ok {
+			_ = conn.Close()
+
 			return nil, nil, errNilConn
 		}
 
@@ -102,6 +104,8 @@ func (r *RelayAddressGeneratorPortRange) AllocatePacketConn(
 
 		relayAddr, ok := conn.LocalAddr().(*net.UDPAddr)
 		if !ok {
+			_ = conn.Close()
+
 			return nil, nil, errNilConn
 		}
 
